@@ -849,6 +849,22 @@ impl<'a> Gen<'a> {
         scan.nodes.push(Node { kind: "start", name: String::new(), range: blk.start + 1..blk.start + 1, stmt: blk.start + 1..blk.start + 1, block: Some(blk.clone()), header_end: None, body: None, aux: None });
         scan.nodes.push(Node { kind: "end", name: String::new(), range: blk.end - 1..blk.end - 1, stmt: blk.end - 1..blk.end - 1, block: Some(blk.clone()), header_end: None, body: None, aux: None });
         let _ = &scan.fn_block;
+        // R7 on a by-value `mut self` receiver: `self` + `let mut this = self;` + every `self` in the body -> `this`
+        if self.rules.contains("R7") {
+            if let Some(syn::FnArg::Receiver(rcv)) = sig.inputs.first() {
+                if rcv.reference.is_none() && rcv.mutability.is_some() {
+                    let m = br(rcv.mutability.unwrap().span());
+                    self.rule_log("R7", &m, "`mut self` receiver re-bound as `this` in the body");
+                    let o = self.gen("R7");
+                    self.rep(m.start..br(rcv.self_token.span()).start, String::new(), o.clone(), "rewrite");
+                    self.ins(blk.start + 1, " let mut this = self; ".into(), o.clone(), "rewrite");
+                    let uses: Vec<Range<usize>> = scan.nodes.iter().filter(|n| n.kind == "path" && n.name == "self").map(|n| n.range.clone()).collect();
+                    for r in uses {
+                        self.rep(r, "this".into(), o.clone(), "rewrite");
+                    }
+                }
+            }
+        }
         // generic body rewrites
         self.body_rules(block, &scan, spec);
         self.body_sections(&scan, spec, &ctx);
